@@ -327,3 +327,33 @@ fn command_position(data: &mut Data, terms: &mut SplitAsciiWhitespace<'_>) -> an
 
     Ok(())
 }
+
+/// Verification-only entry points to the private command handlers.
+/// Compiled only with `--cfg daniel729_chess_verif`.
+#[cfg(daniel729_chess_verif)]
+pub mod verif_hooks {
+    use super::*;
+
+    /// Runs the `position` command handler on `args` (the text after the word `position`)
+    /// with `current` as the game held so far; returns the game held afterwards and the
+    /// handler's verdict.
+    pub fn position(current: Option<Game>, args: &str) -> (Option<Game>, Result<(), String>) {
+        let mut data = Data {
+            current_game: current,
+            cache: HashMap::with_hasher(BuildNoHashHasher::default()),
+        };
+        let mut terms = args.split_ascii_whitespace();
+        let result = command_position(&mut data, &mut terms).map_err(|err| err.to_string());
+        (data.current_game, result)
+    }
+
+    /// Runs the `ucinewgame` handler; returns the game held afterwards and the table size.
+    pub fn ucinewgame(current: Option<Game>, mut cache: TranspositionTable) -> (Option<Game>, usize) {
+        let mut data = Data {
+            current_game: current,
+            cache: std::mem::take(&mut cache),
+        };
+        command_ucinewgame(&mut data);
+        (data.current_game, data.cache.len())
+    }
+}
